@@ -91,12 +91,14 @@ func realiseGxz(abs gxzScenario, seed int64, thorough bool) []gxzScenario {
 				if format == "xz" {
 					// a complete stream followed by the first bytes of a second one / by stray bytes:
 					// the reader reports the error together with the last data of the first stream
-					bads = append(bads, "twostream-cut", "stray")
+					bads = append(bads, "twostream-cut", "stray", "stray-aligned")
 				} else {
 					// content larger than the decoder's window: the error arrives with the last data;
 					// a complete .lzma stream followed by stray bytes or by a second .lzma stream (the
 					// format has no concatenation; xz-utils calls both corrupt): nothing may be dropped silently
-					bads = append(bads, "truncated-big", "stray", "concat")
+					// "stray-aligned": the stream ends exactly where a 4096-byte I/O buffer ends, so that
+					// "nothing buffered" does not mean "nothing left in the file"
+					bads = append(bads, "truncated-big", "stray", "concat", "stray-aligned")
 				}
 			}
 			for _, bad := range bads {
@@ -133,7 +135,14 @@ func realiseGxz(abs gxzScenario, seed int64, thorough bool) []gxzScenario {
 						args = append([]string{"-0"}, args...)
 					}
 					comp := gxzEncode(format, s.plain)
+					if bad == "stray-aligned" {
+						if p, cm := gxzAligned(format, seed); cm != nil {
+							s.plain, comp = p, cm
+						}
+					}
 					switch bad {
+					case "stray-aligned":
+						comp = append(append([]byte{}, comp...), []byte("tail that must not vanish\n")...)
 					case "twostream-cut":
 						comp = append(append([]byte{}, comp...), comp[:8]...)
 					case "stray":
@@ -173,6 +182,27 @@ func realiseGxz(abs gxzScenario, seed int64, thorough bool) []gxzScenario {
 		}
 	}
 	return out
+}
+
+// gxzAligned finds a plaintext whose compressed stream is a multiple of 4096 bytes long (the
+// buffer size of bufio and of gxz's copy loop): incompressible data makes the stream length
+// follow the input length byte by byte, so a few probes reach the boundary.
+func gxzAligned(format string, seed int64) (plain, comp []byte) {
+	base := MakeData("random", 40000, seed+5)
+	L := 8000
+	for it := 0; it < 400 && L < len(base); it++ {
+		comp = gxzEncode(format, base[:L])
+		r := len(comp) % 4096
+		if r == 0 {
+			return base[:L], comp
+		}
+		if d := 4096 - r; d > 16 {
+			L += d - 8
+		} else {
+			L++
+		}
+	}
+	return nil, nil
 }
 
 func gxzEncode(format string, plain []byte) []byte {
